@@ -187,8 +187,12 @@ impl Ctx {
                     let failed = std::cell::Cell::new(false);
                     let evals = std::cell::Cell::new(0u64); let nt = std::cell::Cell::new(0u64); let excluded = std::cell::Cell::new(0u64);
                     let fps = RefCell::new(Vec::<u64>::new()); let classes = RefCell::new(BTreeMap::<String, u64>::new()); let samples = RefCell::new(Vec::<Value>::new());
+                    let shrink_started = std::cell::Cell::new(None::<Instant>);
                     let res = runner.run(&strat(), |c: C| {
                         if stop.load(Ordering::Relaxed) && !failed.get() { return Ok(()); }
+                        // shrinking is bounded by wall time as well as by iterations: past the budget every further
+                        // candidate counts as passing, so proptest settles on the smallest failure found so far
+                        if let Some(t) = shrink_started.get() { if t.elapsed().as_secs() >= SHRINK_SECS { return Ok(()); } }
                         let r = guard(|| check(&c)).and_then(|r| r);
                         match r {
                             Ok(i) => { if !failed.get() {
@@ -202,7 +206,7 @@ impl Ctx {
                                 if !failed.get() {
                                     // only the first worker that fails shrinks; the others stand down
                                     if stop.swap(true, Ordering::SeqCst) { return Ok(()); }
-                                    evals.set(evals.get() + 1); failed.set(true);
+                                    evals.set(evals.get() + 1); failed.set(true); shrink_started.set(Some(Instant::now()));
                                 }
                                 Err(TestCaseError::fail(m)) }
                         }
@@ -319,6 +323,9 @@ impl Ctx {
 
 struct Timer<'a> { ctx: &'a Ctx, sub: String, t0: Instant }
 impl<'a> Drop for Timer<'a> { fn drop(&mut self) { let mut st = self.ctx.stats.lock().unwrap(); st.entry(self.sub.clone()).or_default().wall_s += self.t0.elapsed().as_secs_f64(); } }
+
+/// Wall-clock budget for shrinking one failure.
+pub const SHRINK_SECS: u64 = 20;
 
 pub static RULES: Mutex<BTreeMap<String, String>> = Mutex::new(BTreeMap::new());
 pub fn set_rule(id: &str, rule: &str) { RULES.lock().unwrap().insert(id.into(), rule.into()); }
